@@ -56,6 +56,30 @@ def daemonRawOnlyModuleRoot : Bool :=
     ((s.fn == .handleConnReceiver || s.fn == .restrictToModules) &&
       (s.calleeId == callee_os_MkdirAll || s.calleeId == callee_os_OpenRoot))
 
+/-- raw-path sites name exactly the configured paths: the module path (daemon), the walker's local
+directory (sender), nothing at all in the receiver; and in `handleConnReceiver` the destination path is
+the module path from the `Transfer` literal until the root has been opened -/
+def rawArgsPinned : Bool :=
+  rawArgs_receiver == [] &&
+  rawArgs_sender == [("os.OpenRoot", "s.localDir")] &&
+  rawArgs_rsyncd == [("os.MkdirAll", "mod.Path"), ("os.MkdirAll", "rt.Dest"), ("os.OpenRoot", "rt.Dest")] &&
+  destEvents_rsyncd.take 3 == ["Dest: module.Path", "os.MkdirAll(rt.Dest)", "os.OpenRoot(rt.Dest)"] &&
+  (destEvents_rsyncd.drop 3).all (fun e => e.startsWith "rt.Dest = ")
+
+theorem raw_args_pinned : rawArgsPinned = true := by decide +kernel
+
+/-- the names handed to root-relative calls are the decoded entry name (cleaned when decoded), its
+parent, the path a root-relative walk reports, or the daemon's cleaned subdirectory argument. A name
+with a trailing slash must never reach an `*os.Root` method: the kernel then follows a symbolic link
+in the last position and the root's own check does not see it (D28; validated by the rootfs suite) -/
+def rootNamesClean : Bool :=
+  rootNameArgs_receiver.all (fun a => ["f.Name", "filepath.Dir(f.Name)", "path", "rt.DestRoot", "fn", "root"].contains a) &&
+  rootNameArgs_rsyncd.all (fun a => ["subdir"].contains a) &&
+  rootNameArgs_sender.all (fun a => ["name", "path", "fl.path"].contains a) &&
+  receiverNameCleaned && daemonSubdirCleaned && senderWalkRootCleaned
+
+theorem root_names_clean : rootNamesClean = true := by decide +kernel
+
 theorem dry_sites_guarded : drySafe = true ∧ dryBranchPure = true := by decide
 theorem receiver_sites_confined : receiverConfined = true := by decide
 theorem sender_sites_confined : senderConfined = true := by decide
